@@ -11,17 +11,23 @@ FreshId == CHOOSE i \in Ids : i \notin usedIds /\ \A j \in Ids : j \notin usedId
 Msgs == {[k |-> "resp", id |-> i, status |-> s, hashok |-> h, fits |-> f] : i \in (usedIds \cup {Cardinality(Reqs) + 1}), s \in {0, 257}, h \in BOOLEAN, f \in BOOLEAN}
         \cup {[k |-> "errpdu", status |-> 258], [k |-> "badmac"], [k |-> "garbage"]}
 
+(* HTTP: how an exchange may end: transfer error, HTTP error status, a body of zero, one or two PDUs, possibly followed by junk *)
+RespMsgs == {m \in Msgs : m.k = "resp"}
+Bodies == {<<>>} \cup {<<m>> : m \in Msgs} \cup {<<m1, m2>> : m1 \in RespMsgs, m2 \in {m \in RespMsgs : m.status = 0 /\ m.fits}}
+Outcomes(r) == {[x |-> r, res |-> k, msgs |-> <<>>, junk |-> FALSE] : k \in {"curlerr", "httperr"}}
+               \cup {[x |-> r, res |-> "body", msgs |-> b, junk |-> j] : b \in Bodies, j \in BOOLEAN}
 MCInit == Init /\ nmsg = 0
 MCNext == \/ (NextReq # 0 /\ Add(NextReq, FreshId) /\ UNCHANGED nmsg)
           \/ (\E h \in Reqs \cup {0} : Run(h) /\ UNCHANGED nmsg)
           \/ (\E m \in Msgs : nmsg < MaxMsgs /\ Len(wire) < MaxWire /\ ServerWrites(m) /\ nmsg' = nmsg + 1)
-          \/ (\E how \in {"closed", "reset"} : PeerEnds(how) /\ UNCHANGED nmsg)
-          \/ (\E m \in {"ready", "notready", "hup", "err"} : SetPoll(m) /\ UNCHANGED nmsg)
-          \/ (\E m \in {"ok", "fail"} : SetOpen(m) /\ UNCHANGED nmsg)
+          \/ (\E r \in Reqs : \E e \in Outcomes(r) : nmsg < MaxMsgs /\ ExchangeCompletes(e) /\ nmsg' = nmsg + 1)
+          \/ (~Http /\ \E how \in {"closed", "reset"} : PeerEnds(how) /\ UNCHANGED nmsg)
+          \/ (~Http /\ \E m \in {"ready", "notready", "hup", "err"} : SetPoll(m) /\ UNCHANGED nmsg)
+          \/ (~Http /\ \E m \in {"ok", "fail"} : SetOpen(m) /\ UNCHANGED nmsg)
           \/ (clock < MaxClock /\ Tick(1) /\ UNCHANGED nmsg)
 MCSpec == MCInit /\ [][MCNext]_<<vars, nmsg>>
 (* the observation variable does not distinguish states *)
-View == <<st, id, addT, sndT, cause, sigok, sendq, respq, wire, conn, connT, rStart, rCount, peer, pollm, openm, clock, usedIds, ret, arrived, early, nmsg>>
+View == <<st, id, addT, sndT, cause, sigok, sendq, respq, wire, conn, connT, rStart, rCount, peer, pollm, openm, clock, usedIds, ret, arrived, early, xdone, nmsg>>
 Dbg1 == ~(st[2] = "resp")
 Dbg3 == ~(st[2] = "sent")
 Dbg4 == ~(st[2] = "queued")
